@@ -312,6 +312,8 @@ func Apply(ctx context.Context, rc *regclient.RegClient, rSrc ref.Ref, opts ...O
 				if err != nil {
 					return nil, err
 				}
+				// closing computes the new digests, do not close (and recompute from a closed source) a second time
+				rdr = nil
 				if dl.newDesc.Digest == "" {
 					dl.newDesc.Digest = dNew.Digest
 				} else if dl.newDesc.Digest != dNew.Digest {
